@@ -12,21 +12,25 @@ impl<'a> Iter<'a> {
     pub(super) fn new(bases: &'a [u8], start: usize, end: usize) -> Self {
         let i = start / 2;
         let j = end.div_ceil(2);
-        let mut iter = bases[i..j].iter();
+
+        // An empty range that begins on an odd base still selects a byte; it holds no base.
+        let mut iter = if start < end {
+            bases[i..j].iter()
+        } else {
+            [].iter()
+        };
+
+        // The last byte holds only one base of the range when the range ends on an odd base.
+        let back = if end.is_multiple_of(2) {
+            None
+        } else {
+            iter.next_back().map(|&n| discard_back_decoded_bases(n))
+        };
 
         let front = if start.is_multiple_of(2) {
             None
         } else {
             iter.next().map(|&n| discard_front_decoded_bases(n))
-        };
-
-        let base_count = end - start;
-
-        // This assumes `bases.len() * 2` is only ever `base_count` or `base_count` + 1.
-        let back = if bases.len() * 2 > base_count {
-            iter.next_back().map(|&n| discard_back_decoded_bases(n))
-        } else {
-            None
         };
 
         Self { iter, front, back }
